@@ -3,6 +3,7 @@ package main
 // Evaluation of contract expressions to symbolic values over a state.
 
 import (
+	"os"
 	"fmt"
 	"go/constant"
 	"go/types"
@@ -161,7 +162,7 @@ func (c *EvalCtx) keyTerm(k *V, e *Expr) string {
 
 func (s *State) mapHas(h *mapHandle, key string) string {
 	dom := s.comp(h.fam+"#dom", 2, "Bool")
-	if !s.mapAx["nil/"+dom] {
+	if nilMapAxiom && !s.mapAx["nil/"+dom] {
 		// the nil map has no keys (reference 0 is never an object; writes through it panic)
 		s.mapAx["nil/"+dom] = true
 		s.assume("(forall ((k Int)) (! (not (select (select " + dom + " 0) k)) :pattern ((select (select " + dom + " 0) k))))")
@@ -1475,3 +1476,8 @@ func (c *EvalCtx) registerMapLeaves(fam string) {
 		st.comp(fam+"#dom", 2, "Bool")
 	}
 }
+
+
+// nilMapAxiom: assume "the nil map has no keys" as a quantified fact per domain version. Off: the ground instances
+// added at each lookup suffice for the contracts written so far, and the quantified form slows the solvers markedly.
+var nilMapAxiom = os.Getenv("GOVC_NILMAP_AXIOM") == "1"
